@@ -180,7 +180,9 @@ class FalsyPrinter:
 
 
 # the same printer function registered repeatedly, by name and directly, around prints that promote pending entries
-SHARED_ALPHABET = [('rnS', 2), ('rcS', 2), ('rn', 2), ('rc', 2), ('rnS', 1), ('rnF', 1), ('pr', 2, ()), ('pr', 4, ()), ('q', 2, (1, 1, 1)), ('q', 4, (1, 1, 0))]
+SHARED_ALPHABET = [('rnS', 2), ('rcS', 2), ('rn', 2), ('rc', 2), ('rnS', 1), ('pr', 2, ()), ('pr', 4, ()), ('q', 2, (1, 1, 1))]
+# ... and a by-name printer that is a falsy callable object, on a supertype of the classes printed / asked about
+FALSY_ALPHABET = [('rnF', 1), ('rnF', 2), ('rn', 1), ('rc', 2), ('pr', 2, ()), ('pr', 4, ()), ('pr', 1, ()), ('q', 4, (1, 1, 0)), ('q', 2, (1, 1, 1))]
 
 _drv = None
 
@@ -235,8 +237,10 @@ def registry_section(tier, seed):
     for n in range(1, (4 if tier == 'quick' else 5) + 1):
         hist_pred.extend(itertools.product(PRED_ALPHABET, repeat=n))
     hist.extend(hist_pred)
+    for n in range(1, (5 if tier == 'quick' else 6) + 1):
+        hist.extend(h for h in itertools.product(SHARED_ALPHABET, repeat=n) if any(o[0] in ('rnS', 'rcS') for o in h) and h[-1][0] in ('pr', 'q'))
     for n in range(1, (4 if tier == 'quick' else 5) + 1):
-        hist.extend(h for h in itertools.product(SHARED_ALPHABET, repeat=n) if any(o[0] in ('rnS', 'rcS', 'rnF') for o in h) and h[-1][0] in ('pr', 'q'))
+        hist.extend(h for h in itertools.product(FALSY_ALPHABET, repeat=n) if any(o[0] == 'rnF' for o in h) and h[-1][0] in ('pr', 'q'))
     for _ in range(n_rand // 4):
         k = rng.randint(5, 15)
         hist.append(tuple(rng.choice(PRED_ALPHABET + ALPHABET[:8]) for _ in range(k)))
